@@ -110,6 +110,15 @@ pub fn run_step(engine: &mut Engine, cap: &mut OutCapture, step: &Value) -> Valu
         }
         "natives" => json!({"s":"ok","v":steel::verif::native_function_globals(engine),"out":""}),
         "rss" => json!({"s":"ok","v":[rss_hwm_kb()],"out":""}),
+        // rewrite a (module) file between two evaluations of one engine
+        "writefile" => {
+            let path = step.get("path").and_then(|p| p.as_str()).unwrap_or("");
+            let text = step.get("text").and_then(|p| p.as_str()).unwrap_or("");
+            match std::fs::write(path, text) {
+                Ok(()) => json!({"s":"ok","v":[],"out":""}),
+                Err(e) => json!({"s":"err","k":"io","m":e.to_string(),"out":""}),
+            }
+        }
         "threads" => json!({"s":"ok","v":[thread_count()],"out":""}),
         _ => json!({"s":"badop"}),
     }
